@@ -843,6 +843,16 @@ def check_canonicalize_guard(prog, rep):
                 n += 1
                 ok = any(isinstance(x, ast.Attribute) and x.attr == 'chi' and
                          unparse(x.value) == res for x in ast.walk(st.test))
+                # `L > 1` excludes the one-site unit cell of an INFINITE state, which has a bond
+                single = any(isinstance(x, ast.Compare) and unparse(x.left) == res + '.L'
+                             for x in ast.walk(st.test))
+                covers_inf = 'infinite' in unparse(st.test) or '.finite' in unparse(st.test)
+                if ok and single and not covers_inf:
+                    rep.violation('FORM-canonicalize-all-bonds', m, q, 'skip-test:single-site',
+                                  'canonical_form() is skipped for `%s.L == 1` regardless of the '
+                                  'boundary conditions: an infinite MPS with a one-site unit cell '
+                                  'and chi > 1 keeps the placeholder Schmidt values' % res,
+                                  st.lineno)
                 rep.instance('FORM-canonicalize-all-bonds', {'function': q,
                                                              'test': unparse(st.test)[:70], 'ok': ok})
                 if not ok:
